@@ -236,3 +236,53 @@ func init() {
 		assumptions: commonAssumptions,
 	}
 }
+
+func init() {
+	checkTable["C08"] = &checkSpec{
+		needEnd: true,
+		jobs: func(tier string) []*Job {
+			var js []*Job
+			add := func(tpl, ln, pn, cfg, skip, cs int) {
+				js = append(js, &Job{Module: "mcap", Harness: "VC08Stats", Params: P("tpl", tpl, "ln", ln, "pn", pn, "cfg", cfg, "skip", skip, "cs", cs), TimeoutS: 900})
+			}
+			addc := func(n, per, tail, skip int) {
+				js = append(js, &Job{Module: "mcap", Harness: "VC08StatsChunks", Params: P("n", n, "per", per, "tail", tail, "skip", skip), TimeoutS: 900})
+			}
+			if tier == "quick" {
+				for _, tpl := range []int{0, 1, 5, 6, 7} {
+					add(tpl, 1, 2, 3, 0, 1)
+					add(tpl, 1, 2, 3, 1000+(2|8|64), 1000)
+					add(tpl, 1, 2, 2, 1000+(4|16|32), 1000)
+				}
+				addc(2, 1, 0, 0)
+				addc(3, 1, 0, 0)
+				addc(3, 2, 0, 1000+(1|2|64))
+				addc(1, 1, 1, 0)
+				addc(2, 1, 1, 1)
+				addc(2, 2, 1, 0)
+				addc(3, 2, 1, 0)
+				return js
+			}
+			for tpl := 0; tpl <= 7; tpl++ {
+				for _, c := range [][2]int{{3, 1}, {3, 60}, {3, 100000}, {2, 1}, {1, 1}, {0, 1}} {
+					add(tpl, 1, 2, c[0], -1, c[1])
+				}
+				add(tpl, 3, 5, 3, -1, 1)
+			}
+			for n := 1; n <= 5; n++ {
+				for per := 1; per <= 3; per++ {
+					for tail := 0; tail <= 1; tail++ {
+						addc(n, per, tail, 1000+(1|2|64))
+					}
+				}
+			}
+			return js
+		},
+		bounds: map[string]any{
+			"quick":    map[string]any{"templates": "T0,T1,T5,T6,T7 x 3 option sets (chunk size 1 / 1000 / unchunked; 3 Skip* flags symbolic each)", "chunk_files": "1-3 messages, 1-2 per chunk, with/without a trailing chunk that holds only a channel record", "symbolic": "every log time (64 bit), all strings and payload bytes, listed flags"},
+			"thorough": map[string]any{"templates": "T0-T7 x 7 option sets, all 8 Skip* flags symbolic", "chunk_files": "1-5 messages x 1-3 per chunk x trailing channel-only chunk"},
+		},
+		outside:     append([]string{"chunks handed to WriteChunkWithIndexes directly by a caller (the writer's own flush path is what is decided)"}, outsideCommon...),
+		assumptions: commonAssumptions,
+	}
+}
